@@ -927,6 +927,31 @@ def _perm_ryser(a):
     return total
 
 
+def _perm_glynn_float(a):
+    """Permanent by Glynn's formula with Gray code, float64/longdouble (for blocks too large for Fractions)."""
+    a = np.asarray(a, dtype=np.longdouble)
+    n = a.shape[0]
+    if n == 0:
+        return np.longdouble(1)
+    if n == 1:
+        return a[0, 0]
+    row_comb = a.sum(axis=0)
+    total = np.longdouble(0)
+    old_grey = 0
+    sign = 1
+    for k in range(1, 2 ** (n - 1) + 1):
+        total += sign * np.prod(row_comb)
+        new_grey = k ^ (k // 2)
+        diff = old_grey ^ new_grey
+        if diff:
+            idx = diff.bit_length() - 1
+            direction = 2 if old_grey > new_grey else -2
+            row_comb = row_comb + a[idx] * direction
+        sign = -sign
+        old_grey = new_grey
+    return total / (2 ** (n - 1))
+
+
 class C02Monitor(Monitor):
     """Every P matrix the scheduler computes == exact permanent ratios on the idle block."""
 
@@ -963,24 +988,46 @@ class C02Monitor(Monitor):
                     sim.violate("C02", "nonzero_on_busy", f"P[{i},{j}]={out[i,j]} with locks {locks}")
                 if mat[i, j] == 0 and out[i, j] != 0:
                     sim.violate("C02", "nonzero_where_weight_zero", f"P[{i},{j}]={out[i,j]}, W=0")
-        if not idle or len(idle) > self.maxn:
+        if not idle or len(idle) > 14:
             return
-        w = [[Fraction(float(mat[i, j])) for j in idle] for i in idle]
         m = len(idle)
-        perm = _perm_ryser(w)
-        if perm == 0:
-            sim.violate("C02", "no_perfect_matching", f"perm(W_idle)=0 for W=\n{mat}\nlocks {locks}")
-            return
-        self.checked += 1
-        exact = np.zeros((m, m))
-        for a in range(m):
-            for b in range(m):
-                if w[a][b] == 0:
-                    continue
-                minor = [[w[r][c] for c in range(m) if c != b] for r in range(m) if r != a]
-                exact[a, b] = float(w[a][b] * _perm_ryser(minor) / perm)
+        big = m > self.maxn
+        if big:
+            # too large for exact rational arithmetic: long-double Glynn, looser tolerance
+            wf_ = mat[np.ix_(idle, idle)].astype(np.longdouble)
+            wf_ = wf_ / wf_.max(axis=1, keepdims=True)          # row scaling leaves the ratios unchanged
+            perm = _perm_glynn_float(wf_)
+            if perm == 0:
+                sim.violate("C02", "no_perfect_matching", f"perm(W_idle)=0 (size {m})")
+                return
+            self.checked += 1
+            sim.k.probe("large_idle_block_checked")
+            exact = np.zeros((m, m))
+            for a in range(m):
+                rows = [r for r in range(m) if r != a]
+                for b in range(m):
+                    if wf_[a, b] == 0:
+                        continue
+                    cols = [c for c in range(m) if c != b]
+                    exact[a, b] = float(wf_[a, b] * _perm_glynn_float(wf_[np.ix_(rows, cols)]) / perm)
+            rtol = 1e-6
+        else:
+            w = [[Fraction(float(mat[i, j])) for j in idle] for i in idle]
+            perm = _perm_ryser(w)
+            if perm == 0:
+                sim.violate("C02", "no_perfect_matching", f"perm(W_idle)=0 for W=\n{mat}\nlocks {locks}")
+                return
+            self.checked += 1
+            exact = np.zeros((m, m))
+            for a in range(m):
+                for b in range(m):
+                    if w[a][b] == 0:
+                        continue
+                    minor = [[w[r][c] for c in range(m) if c != b] for r in range(m) if r != a]
+                    exact[a, b] = float(w[a][b] * _perm_ryser(minor) / perm)
+            rtol = self.RTOL
         got = out[np.ix_(idle, idle)]
-        if not np.allclose(got, exact, rtol=self.RTOL, atol=1e-12):
+        if not np.allclose(got, exact, rtol=rtol, atol=1e-10 if big else 1e-12):
             a, b = np.unravel_index(np.argmax(np.abs(got - exact)), got.shape)
             sim.violate("C02", "prob_not_permanent_ratio",
                         f"P[{idle[a]},{idle[b]}]={got[a,b]!r}, exact {exact[a,b]!r}; W_idle=\n"
@@ -991,6 +1038,8 @@ class C02Monitor(Monitor):
         self.paths["blocks" if weighted else "fast"] += 1
         if weighted:
             sim.k.probe("wf_unequal_weight_matrix")
+        if big:
+            return
         # ---- rescaling one path's weights leaves P unchanged; permanent code path agrees
         self.busy = True
         try:
